@@ -381,6 +381,11 @@ impl<'a> Socket<'a> {
                     requested_ip: dhcp_repr.your_ip, // use the offered ip
                 });
             }
+            // An ACK can only answer a REQUEST: ignore it until the first one has gone out.
+            (ClientState::Requesting(state), DhcpMessageType::Ack) if state.retry == 0 => {
+                let _ = state;
+                net_debug!("DHCP ignoring ACK received before any REQUEST was sent");
+            }
             (ClientState::Requesting(state), DhcpMessageType::Ack) => {
                 if let Some((config, renew_at, rebind_at, expires_at)) =
                     Self::parse_ack(cx.now(), &dhcp_repr, self.max_lease_duration, state.server)
